@@ -1341,8 +1341,19 @@ pub fn with_control_everywhere(cases: &[Value], control: &Value) -> Vec<Value> {
     out
 }
 
+/// Order: by bound (deviation count) first; within a bound the small, targeted families (few
+/// cases for their seed/universe/configuration) come before the bulk enumerations, so that a
+/// run cut short by its wall-clock budget loses the tail of the largest family and nothing else.
 pub fn sort_by_bound(cases: &mut Vec<Value>) {
-    cases.sort_by_key(|c| c["bound"].as_u64().unwrap_or(0));
+    let family = |c: &Value| -> String {
+        let h = if c.get("hist").is_some() { &c["hist"] } else { c };
+        format!("{}|{}|{}|{}", c["bound"], h["seed"], h["universe"], h["cfg"])
+    };
+    let mut sizes: std::collections::HashMap<String, usize> = std::collections::HashMap::new();
+    for c in cases.iter() {
+        *sizes.entry(family(c)).or_insert(0) += 1;
+    }
+    cases.sort_by_cached_key(|c| (c["bound"].as_u64().unwrap_or(0), sizes[&family(c)]));
 }
 
 impl Engine for HistX {
